@@ -9,7 +9,7 @@ import ast
 
 from ..model import walk_shallow, call_name, is_self_attr, dotted_name, parent, ancestors, enclosing_function
 from ..util import (has_call, find_calls, assigned_value, const_str, unparse, kw, arg_or_kw, enclosing_stmt,
-                    guards_of, call_tail, control_ancestors)
+                    guards_of, call_tail, control_ancestors, name_bound, bound_names)
 from .. import mutate as M
 from . import c04
 
@@ -71,8 +71,10 @@ def r1_preservation(ctx):
     # pipes.Cache replays exactly what it read
     fn = ctx.fn(PF, "Cache.filter")
     src = unparse(fn)
-    ok = "self._iter = iter(items)" in src and "self._cache.extend(current)" in src and "yield from current" in src and \
-        "current := list(islice(self._iter, n_slice))" in src and src.count("yield from self._cache") == 2
+    wl = [x for x in walk_shallow(fn) if isinstance(x, ast.While) and isinstance(x.test, ast.NamedExpr)]
+    CUR = unparse(wl[0].test.target) if wl else "current"
+    ok = "self._iter = iter(items)" in src and f"self._cache.extend({CUR})" in src and f"yield from {CUR}" in src and \
+        bool(wl) and unparse(wl[0].test.value).startswith("list(islice(self._iter, ") and src.count("yield from self._cache") == 2
     ctx.ob("C09.R1", PF, "Cache.filter", fn, "pipes.Cache yields its buffer and then the items it appends to the buffer, in order", ok, stmt="pipes.Cache replay")
 
 
@@ -125,7 +127,9 @@ def r2_seed_only(ctx):
         ctx.ob("C09.R2", rel, qual, st[0] if st else f, "self._seed is the constructor's seed", len(st) == 1 and unparse(st[0].value) == "seed", stmt="self._seed store")
     # environments.Shuffle: the documented seed change for logged data is a pure function of the seed
     fn = ctx.fn(EF, "Shuffle.filter")
-    ns = assigned_value(fn, "new_seed")
+    stores = [x for x in walk_shallow(fn) if isinstance(x, ast.Assign) and any(is_self_attr(t, "_seed") for t in x.targets)]
+    srcs = [v for x in stores if isinstance(x.value, ast.Name) for v in assigned_value(fn, x.value.id)]
+    ns = [v for v in srcs if unparse(v) != "self._seed"]
     ok = len(ns) == 1 and {x.id for x in ast.walk(ns[0]) if isinstance(x, ast.Name)} <= {"self"}
     ctx.ob("C09.R2", EF, "Shuffle.filter", ns[0] if ns else fn, "the seed used for logged data is a function of self._seed only", ok, stmt="new_seed")
 
@@ -135,11 +139,18 @@ def r3_where_peek(ctx):
     ctx.rule("C09.R3", "Where.filter peeks enough interactions to decide both bounds: abstract evaluation of the peek size for the "
                        "four None-patterns of (min,max); whenever max is given the peek exceeds max")
     fn = ctx.fn(EF, "Where.filter")
-    vals = assigned_value(fn, "firstn")
+    peeks = [c for c in walk_shallow(fn) if isinstance(c, ast.Call) and call_name(c) == "peek_first"]
+    FIRSTN = unparse(kw(peeks[0], "n")) if peeks and kw(peeks[0], "n") is not None else "firstn"
+    vals = assigned_value(fn, FIRSTN)
     ctx.floor("C09.R3", "peek size definition", len(vals), 1)
     e = vals[0]
-    peeks = [c for c in walk_shallow(fn) if isinstance(c, ast.Call) and call_name(c) == "peek_first"]
-    ok = len(peeks) == 1 and kw(peeks[0], "n") is not None and unparse(kw(peeks[0], "n")) == "firstn" and \
+    global NINT
+    stars = [x for x in ast.walk(e) if isinstance(x, ast.Starred)]
+    NINT = unparse(stars[0].value) if stars else "n_int"
+    nint_src = [unparse(v) for v in assigned_value(fn, NINT)]
+    ctx.ob("C09.R3", EF, "Where.filter", e, "the bounds used for the peek are the filter's n_interactions (as a [min,max] pair)",
+           bool(nint_src) and nint_src[0] == "self._n_interactions" and any("* 2" in v for v in nint_src), detail={"bounds": nint_src}, stmt="peek bounds source")
+    ok = len(peeks) == 1 and kw(peeks[0], "n") is not None and \
         kw(peeks[0], "reduce") is not None and unparse(kw(peeks[0], "reduce")) == "False"
     ctx.ob("C09.R3", EF, "Where.filter", peeks[0] if peeks else fn, "the environment is peeked firstn items deep (as a list)", ok, stmt="peek_first(n=firstn)")
     for pat in (("m", "M"), ("m", None), (None, "M"), (None, None)):
@@ -154,8 +165,10 @@ def r3_where_peek(ctx):
             d = f"peek = {plus}+{base}; needed: more than {need}" if pat[1] else f"peek = {plus}+{base}; needed: at least {need}"
         ctx.ob("C09.R3", EF, "Where.filter", e, f"peek size decides n_interactions=({pat[0] or None},{pat[1] or None})", ok, detail=d,
                stmt=f"peek for ({'min' if pat[0] else None},{'max' if pat[1] else None})")
-    tests = [c for c in walk_shallow(fn) if isinstance(c, ast.Call) and call_tail(c) == "_in_min_max" and c.args and unparse(c.args[0]) == "len(first)"]
-    ok = len(tests) == 1 and unparse(tests[0].args[1]) == "*n_int"
+    peeked = [x for x in walk_shallow(fn) if isinstance(x, ast.Assign) and isinstance(x.targets[0], ast.Tuple) and x.value is (peeks[0] if peeks else None)]
+    FIRST = unparse(peeked[0].targets[0].elts[0]) if peeked else "first"
+    tests = [c for c in walk_shallow(fn) if isinstance(c, ast.Call) and call_tail(c) == "_in_min_max" and c.args and unparse(c.args[0]) == f"len({FIRST})"]
+    ok = len(tests) == 1 and unparse(tests[0].args[1]) == f"*{NINT}"
     ctx.ob("C09.R3", EF, "Where.filter", tests[0] if tests else fn, "the peeked length is compared with (min,max)", ok, stmt="len(first) in (min,max)")
 
 
@@ -181,7 +194,7 @@ def _eval_peek(e, pat):
         return None
     seq = []
     for el in it.elts:
-        if isinstance(el, ast.Starred) and unparse(el.value) == "n_int":
+        if isinstance(el, ast.Starred) and unparse(el.value) == NINT:
             seq += [pat[0], pat[1]]
         elif isinstance(el, ast.Constant) and el.value == 0:
             seq.append("0")
@@ -198,6 +211,7 @@ def _eval_peek(e, pat):
 
 # ------------------------------------------------------------------------------------------ R4
 ORDER_OPS = (ast.Lt, ast.LtE, ast.Gt, ast.GtE)
+NINT = "n_int"
 
 
 def _nullable_fields(ctx, c):
@@ -311,10 +325,15 @@ def r5_two_sided(ctx):
     uses = [c for c in walk_shallow(flt) if isinstance(c, ast.Call) and call_tail(c) == "_in_min_max"]
     ctx.floor("C09.R5", "uses of _in_min_max", len(uses), 3)
     for loopc in uses:
-        if "interaction['actions']" in unparse(loopc):
+        if "['actions']" in unparse(loopc):
             st = enclosing_stmt(loopc)
-            ok = isinstance(st, ast.If) and any(isinstance(y, ast.Expr) and isinstance(y.value, ast.Yield) and unparse(y.value.value) == "interaction" for y in st.body)
-            ctx.ob("C09.R5", EF, "Where.filter", loopc, "an interaction is kept iff its action count is within bounds (or no bound is given)", ok and "n_act == [None, None] or" in unparse(st.test))
+            lp = next((a for a in ancestors(loopc) if isinstance(a, ast.For)), None)
+            iv = unparse(lp.target) if lp is not None else "interaction"
+            ok = isinstance(st, ast.If) and any(isinstance(y, ast.Expr) and isinstance(y.value, ast.Yield) and unparse(y.value.value) == iv for y in st.body) \
+                and f"len({iv}['actions'])" in unparse(loopc)
+            t = st.test if isinstance(st, ast.If) else None
+            okt = isinstance(t, ast.BoolOp) and isinstance(t.op, ast.Or) and unparse(t.values[0]).endswith("== [None, None]") and t.values[1] is loopc
+            ctx.ob("C09.R5", EF, "Where.filter", loopc, "an interaction is kept iff its action count is within bounds (or no bound is given)", ok and okt)
 
 
 # ------------------------------------------------------------------------------------------ R6
@@ -326,34 +345,42 @@ def r6_batch_unbatch(ctx):
     ok = False
     if len(fors) == 3:
         outer, mid, inner = fors
-        bs = assigned_value(fn, "batch_size")
         iv = unparse(outer.target)
-        ok = len(bs) == 1 and unparse(bs[0]) == f"len({iv}[batched_keys[0]])" and unparse(mid.iter) == "range(batch_size)" and \
-            unparse(inner.iter) == iv
+        BS = name_bound(fn, lambda v: unparse(v) == f"len({iv}[batched_keys[0]])", "batch_size")
+        ok = bool(assigned_value(fn, BS)) and unparse(mid.iter) == f"range({BS})" and unparse(inner.iter) == iv
         k, i = unparse(inner.target), unparse(mid.target)
         stores = [x for x in walk_shallow(inner) if isinstance(x, ast.Assign)]
-        ok = ok and len(stores) == 2 and unparse(stores[0]) == f"new[{k}] = {iv}[{k}][{i}]" and unparse(stores[1]) == f"new[{k}] = {iv}[{k}]"
+        NEW = unparse(stores[0].targets[0].value) if stores and isinstance(stores[0].targets[0], ast.Subscript) else "new"
+        ok = ok and len(stores) == 2 and unparse(stores[0]) == f"{NEW}[{k}] = {iv}[{k}][{i}]" and unparse(stores[1]) == f"{NEW}[{k}] = {iv}[{k}]"
         ys = [y for y in walk_shallow(mid) if isinstance(y, ast.Yield)]
-        ok = ok and len(ys) == 1 and unparse(ys[0].value) == "new" and enclosing_stmt(ys[0]) in mid.body
+        ok = ok and len(ys) == 1 and unparse(ys[0].value) == NEW and enclosing_stmt(ys[0]) in mid.body
+        fresh = [x for x in mid.body if isinstance(x, ast.Assign) and unparse(x.targets[0]) == NEW and isinstance(x.value, ast.Dict) and not x.value.keys]
+        ok = ok and len(fresh) == 1
     ctx.ob("C09.R6", EF, "Unbatch._unbatch", fn, "row i of the output takes element i of every batched key (un-batched keys are repeated)", ok, stmt="_unbatch")
     fn = ctx.fn(EF, "Batch.filter")
-    loops = [x for x in walk_shallow(fn) if isinstance(x, ast.For) and "first.keys()" in unparse(x.iter)]
+    peek = [x for x in walk_shallow(fn) if isinstance(x, ast.Assign) and isinstance(x.targets[0], ast.Tuple) and has_call(x.value, "peek_first")]
+    FIRST, REST = (unparse(peek[0].targets[0].elts[0]), unparse(peek[0].targets[0].elts[1])) if peek else ("first", "interactions")
+    CK = name_bound(fn, lambda v: isinstance(v, ast.ListComp) and "callable(" in unparse(v), "callable_keys")
+    loops = [x for x in walk_shallow(fn) if isinstance(x, ast.For) and f"{FIRST}.keys()" in unparse(x.iter)]
     its = sorted(unparse(x.iter) for x in loops)
-    ok = its == ["first.keys() & callable_keys", "first.keys() - callable_keys"]
+    ok = its == [f"{FIRST}.keys() & {CK}", f"{FIRST}.keys() - {CK}"]
     ctx.ob("C09.R6", EF, "Batch.filter", loops[0] if loops else fn, "the two key loops partition the first interaction's keys", ok, detail={"loops": its}, stmt="key partition")
+    outer = [x for x in walk_shallow(fn) if isinstance(x, ast.For) and "self._batched(" in unparse(x.iter)]
+    BATCH = unparse(outer[0].target) if outer else "batch"
     for lp in loops:
         key = unparse(lp.target)
         maps = [c for c in walk_shallow(lp) if isinstance(c, ast.Call) and call_name(c) == "map"]
-        ok = bool(maps) and all(unparse(c.args[0]) == f"itemgetter({key})" and unparse(c.args[1]) == "batch" for c in maps)
-        ctx.ob("C09.R6", EF, "Batch.filter", lp, "every batched value is itemgetter(key) mapped over the same batch, in order", ok, stmt="batched values " + unparse(lp.iter))
-        stores = [x for x in walk_shallow(lp) if isinstance(x, ast.Assign) and unparse(x.targets[0]) == f"new[{key}]"]
-        ctx.ob("C09.R6", EF, "Batch.filter", lp, "each key is stored under its own name", bool(stores), stmt="store key " + unparse(lp.iter), trivial=True)
-    outer = [x for x in walk_shallow(fn) if isinstance(x, ast.For) and "self._batched(" in unparse(x.iter)]
-    ok = len(outer) == 1 and unparse(outer[0].iter) == "self._batched(interactions, self._batch_size)" and unparse(outer[0].target) == "batch"
+        ok = bool(maps) and all(unparse(c.args[0]) == f"itemgetter({key})" and unparse(c.args[1]) == BATCH for c in maps)
+        ctx.ob("C09.R6", EF, "Batch.filter", lp, "every batched value is itemgetter(key) mapped over the same batch, in order", ok, stmt="batched values " + ("callable" if "&" in unparse(lp.iter) else "data"))
+        stores = [x for x in walk_shallow(lp) if isinstance(x, ast.Assign) and isinstance(x.targets[0], ast.Subscript) and unparse(x.targets[0].slice) == key]
+        ctx.ob("C09.R6", EF, "Batch.filter", lp, "each key is stored under its own name", bool(stores), stmt="store key " + ("callable" if "&" in unparse(lp.iter) else "data"), trivial=True)
+    ok = len(outer) == 1 and unparse(outer[0].iter) == f"self._batched({REST}, self._batch_size)"
     ctx.ob("C09.R6", EF, "Batch.filter", outer[0] if outer else fn, "batches come from _batched(interactions, batch_size)", ok, stmt="batch loop")
     bf = ctx.fn(EF, "Batch._batched")
+    IT = name_bound(bf, lambda v: unparse(v) == "iter(iterable)", "it")
+    BT = name_bound(bf, lambda v: unparse(v) == f"list(islice({IT}, n))", "batch")
     src = unparse(bf)
-    ok = src.count("batch = list(islice(it, n))") == 2 and "it = iter(iterable)" in src and "while batch:" in src and "yield batch" in src
+    ok = src.count(f"{BT} = list(islice({IT}, n))") == 2 and f"while {BT}:" in src and f"yield {BT}" in src
     ctx.ob("C09.R6", EF, "Batch._batched", bf, "one iterator is cut into consecutive chunks of n until it is empty", ok, stmt="_batched")
 
 
